@@ -39,26 +39,38 @@ Lemma vtt_process_p_ids cfg ra b en p st cs st' : cue_id cfg = true ->
 Proof.
   intros Hid H. unfold vtt_process_p in H. destruct (if line_position cfg then _ else _) as [line|]; [|discriminate]. cbn [bind] in H.
   destruct (vtt_inlines (echildren p) (v_css st)) as [items css]. rewrite Hid in H.
-  destruct (only_whitespace _); injection H as <- <-; cbn [v_counter length]; split; try reflexivity; lia.
+  destruct (vtt_blank _); injection H as <- <-; cbn [v_counter length]; split; try reflexivity; lia.
 Qed.
-Lemma vtt_process_ps_ids cfg ra b en : cue_id cfg = true -> forall ps st cs st',
-  vtt_process_ps cfg ra b en ps st = Ok (cs, st') -> ids_from (v_counter st) cs /\ v_counter st' = v_counter st + Z.of_nat (length cs).
+Lemma vtt_blocks_ids cfg ra b en : cue_id cfg = true -> forall l,
+  Forall (fun e => forall st cs st', Model.CueWriter.vtt_block cfg ra b en e st = Ok (cs, st') ->
+                   ids_from (v_counter st) cs /\ v_counter st' = v_counter st + Z.of_nat (length cs)) l ->
+  forall st cs st', vtt_blocks cfg ra b en l st = Ok (cs, st') -> ids_from (v_counter st) cs /\ v_counter st' = v_counter st + Z.of_nat (length cs).
 Proof.
-  intros Hid. induction ps as [|p ps IH]; intros st cs st' H; cbn [vtt_process_ps] in H.
+  intros Hid. induction l as [|e l IH]; intros Hl st cs st' H; cbn [vtt_blocks] in H.
   - injection H as <- <-. split; [reflexivity | cbn; lia].
-  - destruct (vtt_process_p cfg ra b en p st) as [[x s1]|] eqn:E1; [|discriminate]. cbn [bind fst snd] in H.
-    destruct (vtt_process_ps cfg ra b en ps s1) as [[y s2]|] eqn:E2; [|discriminate]. cbn [bind fst snd] in H. injection H as <- <-.
-    destruct (vtt_process_p_ids _ _ _ _ _ _ _ _ Hid E1) as [A1 A2]. destruct (IH _ _ _ E2) as [B1 B2]. rewrite A2 in B1.
+  - inversion Hl as [|? ? He Hl']; subst.
+    destruct (Model.CueWriter.vtt_block cfg ra b en e st) as [[x s1]|] eqn:E1; [|discriminate]. cbn [bind fst snd] in H.
+    destruct (vtt_blocks cfg ra b en l s1) as [[y s2]|] eqn:E2; [|discriminate]. cbn [bind fst snd] in H. injection H as <- <-.
+    destruct (He _ _ _ E1) as [A1 A2]. destruct (IH Hl' _ _ _ E2) as [B1 B2]. rewrite A2 in B1.
     split; [apply ids_from_app; assumption|]. rewrite app_length, Nat2Z.inj_add. lia.
+Qed.
+Lemma vtt_block_ids cfg ra b en : cue_id cfg = true -> forall e st cs st',
+  Model.CueWriter.vtt_block cfg ra b en e st = Ok (cs, st') -> ids_from (v_counter st) cs /\ v_counter st' = v_counter st + Z.of_nat (length cs).
+Proof.
+  intros Hid. induction e as [a cs0 IH] using Proofs.Common.ElemInd.elem_ind2. intros st cs st' H. rewrite vtt_block_node in H.
+  destruct (e_kind a); try (injection H as <- <-; split; [reflexivity | cbn; lia]).
+  - exact (vtt_blocks_ids cfg ra b en Hid cs0 IH _ _ _ H).
+  - exact (vtt_process_p_ids _ _ _ _ _ _ _ _ Hid H).
 Qed.
 Lemma vtt_regions_ids cfg b en : cue_id cfg = true -> forall rs st cs st',
   vtt_regions cfg b en rs st = Ok (cs, st') -> ids_from (v_counter st) cs /\ v_counter st' = v_counter st + Z.of_nat (length cs).
 Proof.
   intros Hid. induction rs as [|r rs IH]; intros st cs st' H; cbn [vtt_regions] in H.
   - injection H as <- <-. split; [reflexivity | cbn; lia].
-  - cbv zeta in H. destruct (vtt_process_ps cfg (eattrs r) b en _ st) as [[x s1]|] eqn:E1; [|discriminate]. cbn [bind fst snd] in H.
+  - destruct (vtt_blocks cfg (eattrs r) b en _ st) as [[x s1]|] eqn:E1; [|discriminate]. cbn [bind fst snd] in H.
     destruct (vtt_regions cfg b en rs s1) as [[y s2]|] eqn:E2; [|discriminate]. cbn [bind fst snd] in H. injection H as <- <-.
-    destruct (vtt_process_ps_ids _ _ _ _ Hid _ _ _ _ E1) as [A1 A2]. destruct (IH _ _ _ E2) as [B1 B2]. rewrite A2 in B1.
+    destruct (vtt_blocks_ids cfg (eattrs r) b en Hid _ (proj2 (Forall_forall _ _) (fun e _ => vtt_block_ids cfg (eattrs r) b en Hid e)) _ _ _ E1) as [A1 A2].
+    destruct (IH _ _ _ E2) as [B1 B2]. rewrite A2 in B1.
     split; [apply ids_from_app; assumption|]. rewrite app_length, Nat2Z.inj_add. lia.
 Qed.
 Lemma vtt_loop_ids cfg fs : cue_id cfg = true -> forall seq st cs st',
@@ -72,23 +84,33 @@ Proof.
     destruct (vtt_regions_ids _ _ _ Hid _ _ _ _ E1) as [A1 A2]. destruct (IH _ _ _ E2) as [B1 B2]. rewrite A2 in B1.
     split; [apply ids_from_app; assumption|]. rewrite app_length, Nat2Z.inj_add. lia.
 Qed.
-Lemma finish_ids esc k : forall cs, ids_from k cs -> ids_from k (finish_cues esc cs).
+Lemma default_end_id c : c_id (default_end c) = c_id c.
+Proof. unfold default_end. destruct (c_end c); reflexivity. Qed.
+Lemma map_fill_ids (fill : bool) cs : map c_id (map (fun c => if fill then default_end c else c) cs) = map c_id cs.
+Proof. rewrite map_map. apply map_ext. intros c. destruct fill; [apply default_end_id | reflexivity]. Qed.
+Lemma finish_ids fill blank k : forall cs, Forall (fun c => blank c = false) cs -> ids_from k cs -> ids_from k (finish_cues fill blank cs).
 Proof.
-  induction cs as [|c cs IH] using rev_ind; intros H; [exact H|].
-  assert (Hf : finish_cues esc (cs ++ [c]) = cs ++ finish_cues esc [c]) by (apply finish_cues_app; discriminate).
-  rewrite Hf. unfold ids_from in H. rewrite map_app, app_length, zseq_app, map_app in H. cbn [length zseq map] in H.
-  apply app_inj_tail_iff in H as [H1 H2] || (apply app_inj_tail in H as [H1 H2]).
-  cbn [finish_cues]. destruct (c_end c); [|destruct (only_whitespace _)].
-  - apply ids_from_app; [exact H1|]. unfold ids_from. cbn [map length zseq]. rewrite H2. f_equal. f_equal. lia.
-  - rewrite app_nil_r. exact H1.
-  - apply ids_from_app; [exact H1|]. unfold ids_from. cbn [map length zseq c_id]. rewrite H2. f_equal. f_equal. lia.
+  induction cs as [|c cs IH] using rev_ind; intros Hk H; [exact H|].
+  assert (Hf : finish_cues fill blank (cs ++ [c]) = map (fun c => if fill then default_end c else c) cs ++ finish_cues fill blank [c])
+    by (apply finish_cues_app; discriminate).
+  apply Forall_app in Hk as [_ Hc]. inversion Hc as [|? ? Hb _]; subst.
+  rewrite Hf. unfold ids_from in *. cbn [finish_cues]. rewrite Hb.
+  assert (E : (match c_end c with None => [default_end c] | Some _ => [c] end) = [default_end c])
+    by (unfold default_end; destruct (c_end c); reflexivity).
+  rewrite E, map_app, map_fill_ids, app_length, map_length. cbn [map length]. rewrite default_end_id.
+  rewrite map_app, app_length in H. exact H.
 Qed.
 Theorem vtt_cues_ids cfg seq cs css : cue_id cfg = true -> vtt_cues cfg seq = Ok (cs, css) ->
   map c_id cs = map Some (zseq 1 (length cs)).
 Proof.
-  intros Hid H. unfold vtt_cues in H. destruct (vtt_filters cfg) as [fs|]; [|discriminate].
+  intros Hid H. unfold vtt_cues in H. destruct (vtt_filters cfg) as [fs|] eqn:Hfs; [|discriminate].
   destruct (vtt_loop cfg fs seq (mkVttState 0 [])) as [[cs0 st]|] eqn:E; [|discriminate]. cbn [bind fst snd] in H. injection H as <- _.
-  destruct (vtt_loop_ids cfg fs Hid _ _ _ _ E) as [A _]. apply (finish_ids esc_vtt 0), A.
+  destruct (vtt_loop_ids cfg fs Hid _ _ _ _ E) as [A _]. apply (finish_ids true vtt_blank 0); [|exact A].
+  (* every cue of the loop passed the blank test *)
+  destruct (vtt_filters_form cfg fs) as (c0 & d0 & Hf); [assumption|].
+  pose proof (vtt_loop_spec cfg fs seq _ cs0 st E) as B. clear - B.
+  induction B as [|t regions seq b en cs rest _ _ [Hat _] _ IH]; [constructor|]. apply Forall_app. split; [|exact IH].
+  eapply Forall_impl; [|exact Hat]. intros x (_ & _ & Hx & _). exact Hx.
 Qed.
 (* ... and what is printed in front of each cue is that identifier *)
 Theorem vtt_strings_ids : forall cs ss, vtt_strings cs = Ok ss ->
